@@ -24,6 +24,7 @@ NARROW_AFTER_CHECK = {
 
 
 def run(ctx):
+    node_changes_are_append_only(ctx, '11')
     shared.borrow(ctx, 'C03', '8y ', '10y postponed-removal-keeps-its-place-in-the-log-order')   # F59 also leaves the entries of the removed tree allocated after a crash
     shared.borrow(ctx, 'C11', '3x2 ', '10x2 later-writes-of-the-root-wait-for-its-pending-removal')   # F49 also breaks the slot accounting / the content of the re-inserted tree
     shared.walk_frees_children_of_the_root_found(ctx, '10w')   # F69
@@ -159,3 +160,39 @@ def run(ctx):
     # 9. keyed changes and tree removals of one commit are planned in the order they were given
     shared.removal_planned_in_order(ctx, '9')
 
+
+
+def node_changes_are_append_only(ctx, p):
+    """The flattening of a new tree produces one NodeChange per new node and one IncrementReference per OCCURRENCE of an existing
+    node in a child list; the removal walk later decrements once per occurrence. The list is only ever appended to on its way from
+    the flattening to the change set: a filter, de-duplication or removal in between makes the two sides disagree (a node named
+    twice gets one reference, loses two, and is freed under a live tree)."""
+    F = ctx.F
+    REMOVERS = re.compile(r'Vec::<.*>::(retain|retain_mut|dedup|dedup_by|dedup_by_key|remove|swap_remove|truncate|drain|clear|pop|split_off|extract_if)$')
+    roots = ['column::HashColumn::claim_tree_values', 'db::DbInner::commit_changes', 'db::IndexedChangeSet::push_node_change']
+    bodies = []
+    for r in roots:
+        bodies += lib.family(F, r)
+    seen = set()
+    bad = []
+    nvec = 0
+    for b in bodies:
+        if b.path in seen:
+            continue
+        seen.add(b.path)
+        vecs = [l for l, ty in enumerate(b.locals) if re.search(r'Vec<db::NodeChange', str(ty))]
+        nvec += len(vecs)
+        for bi, t in b.calls():
+            if bi not in b.normal_blocks() or not t['a'] or op_place(t['a'][0]) is None:
+                continue
+            nm = t.get('r') or t.get('f') or ''
+            if REMOVERS.search(nm) and re.search(r'Vec<db::NodeChange', str(b.locals[op_place(t['a'][0])[0]])):
+                bad.append('%s in %s at %s' % (nm.split('::')[-1], b.path, b.loc(bi)))
+            # an iterator chain that filters the list into a new one
+            if re.search(r'Iterator::(filter|filter_map|skip|skip_while|take|take_while|step_by)$', nm):
+                sl = backward_slice(b, [op_place(t['a'][0])])
+                if any(re.search(r'Vec<db::NodeChange', str(b.locals[l])) for l in sl.locals if l < len(b.locals)) and 'partition' not in nm:
+                    bad.append('%s over the node changes in %s at %s' % (nm.split('::')[-1], b.path, b.loc(bi)))
+    ctx.ob(p + 'a node-changes-append-only', 'K4-confinement', 'column::HashColumn::claim_tree_values',
+           'between the flattening of a tree and the change set nothing removes, filters or de-duplicates node changes (one IncrementReference per occurrence of an existing node, as the removal walk decrements)',
+           not bad and nvec >= 2, '; '.join(bad) or 'node-change vectors seen: %d' % nvec)
